@@ -13,4 +13,15 @@ CLAIMS = {
         'design_ref': 'DESIGN.md 4.2, 5 (C05)',
         'note': TRUST + '; undecided: correctness of repartition + vertex cover as an algorithm',
     },
+    'C19': {
+        'technique': 'static analysis: interprocedural may-write / may-share (points-to) analysis on a typed abstract heap',
+        'text': 'For every public entry point (155 obligations over ~135 functions): the set of parameters that may '
+                'be written on any path through the function and its callees, and the set of operand objects that '
+                'may be reachable from the result, are computed and compared with the documented in-place table.  '
+                'Holds for all operand values and all later mutations of the result, which no value-based test can '
+                'sample.  Over-approximates (may-analysis): a reported write/sharing names the statement.',
+        'design_ref': 'DESIGN.md 4.1, 5 (C19)',
+        'note': TRUST + '; assumptions: callbacks are pure (A-callback), user arrays do not overlap, class-field '
+                'type table; limits: heap is flow-insensitive (weak updates), paths k-limited to 6',
+    },
 }
